@@ -1545,6 +1545,17 @@ def run(tier: str, driver_ok: bool) -> Result:
             plans.append((f"{grp}x{n}", members, False))
         plans.append(("rsabigx2", r.sample(pool["rsabig"], 2), False))
         plans.append(("ecx3", r.sample(pool["ec"], 3), False))
+        # octet patterns of the key material that a shortcut in the decoders would misread (every run): an EC key whose X coordinate
+        # begins with 0x04 in the bare RFC 6605 form (looks like a SEC 1 prefix), an RSA modulus whose top bit is clear
+        import keys as _fx
+
+        for xi, xk in enumerate(_fx.ec_keys_x04()):
+            xa = 13 if xk.curve == "P-256" else 14
+            plans.append((f"ec-x04-{xk.curve}x1", [(xk, xa)], False))
+            if xi % 2 == 0:
+                plans.append((f"ec-x04-{xk.curve}x2", [(xk, xa), r.choice([m for m in pool["ec"] if m[0] is not xk])], False))
+        for tcx in _fx.rsa_keys_topclear()[:2]:
+            plans.append((f"rsa-topclear-{tcx.raw['modulus_bits']}x1", [(tcx, 8)], False))
         if tier == "thorough":
             plans.append(("rsabigx3", r.sample(pool["rsabig"], 3), False))
         honest_cases = []
